@@ -20,8 +20,7 @@ Definition predecode_logout_bytes_original (s : string) : res logout_response :=
 
 Theorem predecode_agrees_from_bytes dsig decrypt cfg now s tree r b :
   read_tree s = Ok tree ->                                         (* what parseResponse hands to validation *)
-  (forall raw, read_root_raw s = Ok (Some raw) -> well_formed_attrs raw = true /\ cr_free raw = true) ->
-                                                 (* no duplicated attribute names; no U+000D through a character reference *)
+  (forall raw, read_root_raw s = Ok (Some raw) -> well_formed_attrs raw = true) ->      (* no duplicated attribute names *)
   (cfg_skip_sig cfg = true \/ dsig tree = DMissing) ->
   validate_response_tree dsig decrypt cfg now tree = Ok r ->
   predecode_bytes s = Ok b ->
@@ -31,13 +30,17 @@ Proof.
   intros Ht Hwf Hpath Hv Hb.
   destruct (predecode_view_of_validated_tree s tree Ht) as (raw & Hview & Hraw & Hd).
   unfold predecode_bytes, predecode_bytes_with in Hb. change (token_view_with CsPassThrough s) with (token_view s) in Hb.
-  rewrite Hview in Hb. cbn [bind] in Hb. subst tree. destruct (Hwf raw Hraw) as [W C].
-  exact (predecode_direct_agrees_when_root_unsigned dsig decrypt cfg now raw r b W C Hpath Hv Hb).
+  rewrite Hview in Hb. cbn [bind] in Hb. subst tree.
+  exact (predecode_direct_agrees_when_root_unsigned dsig decrypt cfg now raw r b (Hwf raw Hraw) Hpath Hv Hb).
 Qed.
 
-(* F13: the premise "no U+000D" cannot be dropped.  InResponseTo="_q&#13;x" on the root: the pre-decoder reports the value
-   with U+000D; validation decodes etree's RE-SERIALISATION of the element (xmlUnmarshalElement), which writes U+000D raw
-   (F8), and the second tokenizer pass turns it into U+000A -- [mechanism]: reading back what etree writes for the tree. *)
+(* F13, repaired by 2164cf6.  InResponseTo="_q&#13;x" on the root: the pre-decoder reports the value with U+000D.  Before the
+   repair validation decoded etree's RE-SERIALISATION of the element under the DEFAULT write settings (xmlUnmarshalElement),
+   which write U+000D raw (F8), and the second tokenizer pass turned it into U+000A ([unmarshal_response_original];
+   mechanism: reading back what etree writes for the tree, [Build.etree_write]).  Since the repair the element is written
+   with CanonicalText / CanonicalAttrVal -- U+000D goes out as &#xD; -- and validation reports the value with U+000D too
+   (mechanism: [Canon.c14n_write] is that writer, with end tags always written, which the tokenizer does not see). *)
+From V Require Import Canon.
 Definition f13_doc : string :=
   "<samlp:Response xmlns:samlp=""urn:oasis:names:tc:SAML:2.0:protocol"" ID=""_1"" InResponseTo=""_q&#13;x"" Version=""2.0""/>".
 Definition f13_cr_value : string := ("_q" ++ cr1 ++ "x")%string.      (* what &#13; denotes *)
@@ -47,16 +50,51 @@ Definition f13_attrs (v : string) : list attr :=
     {| at_space := ""; at_key := "ID"; at_val := "_1" |};
     {| at_space := ""; at_key := "InResponseTo"; at_val := v |};
     {| at_space := ""; at_key := "Version"; at_val := "2.0" |} ].
-Theorem predecode_disagrees_on_cr_reference :
+Theorem predecode_disagrees_on_cr_reference_before_repair :
   read_tree f13_doc = Ok (Elem "samlp" "Response" (f13_attrs f13_cr_value) []) /\
   well_formed_attrs (Elem "samlp" "Response" (f13_attrs f13_cr_value) []) = true /\
   cr_free (Elem "samlp" "Response" (f13_attrs f13_cr_value) []) = false /\
   option_map br_in_response_to (match predecode_bytes f13_doc with Ok b => Some b | Err _ => None end) = Some f13_cr_value /\
   option_map r_in_response_to
-    (match unmarshal_response (Elem "samlp" "Response" (f13_attrs f13_cr_value) []) with Ok r => Some r | Err _ => None end)
+    (match unmarshal_response_original (Elem "samlp" "Response" (f13_attrs f13_cr_value) []) with Ok r => Some r | Err _ => None end)
     = Some f13_lf_value /\
   read_tree (Build.etree_write (Elem "samlp" "Response" (f13_attrs f13_cr_value) []))
-    = Ok (Elem "samlp" "Response" (f13_attrs f13_lf_value) []).
+    = Ok (Elem "samlp" "Response" (f13_attrs f13_lf_value) []) /\
+  (* ... and after it *)
+  option_map r_in_response_to
+    (match unmarshal_response (Elem "samlp" "Response" (f13_attrs f13_cr_value) []) with Ok r => Some r | Err _ => None end)
+    = Some f13_cr_value /\
+  read_tree (c14n_write (Elem "samlp" "Response" (f13_attrs f13_cr_value) []))
+    = Ok (Elem "samlp" "Response" (f13_attrs f13_cr_value) []).
+Proof. repeat split; vm_compute; reflexivity. Qed.
+
+(* U+000D, TAB and LF in an attribute value and in character data, from the bytes to the decoded struct: validation reports
+   the values the (verified) element holds; the original code reported them end-of-line normalised; reading back the
+   canonical serialisation gives the tree, reading back the default one gives another tree *)
+Definition crs_doc : string :=
+  "<samlp:Response xmlns:samlp=""urn:oasis:names:tc:SAML:2.0:protocol"" xmlns:saml=""urn:oasis:names:tc:SAML:2.0:assertion"" ID=""_1"" InResponseTo=""_q&#13;&#9;&#10;x"" Version=""2.0""><saml:Issuer>idp&#13;&#10;a&#9;&#xD;</saml:Issuer></samlp:Response>".
+Definition tab1 : string := String "009"%char EmptyString.
+Definition crs_attr_value : string := ("_q" ++ cr1 ++ tab1 ++ lf1 ++ "x")%string.
+Definition crs_text_value : string := ("idp" ++ cr1 ++ lf1 ++ "a" ++ tab1 ++ cr1)%string.
+Definition crs_tree (a t : string) : node :=
+  Elem "samlp" "Response"
+    [ {| at_space := "xmlns"; at_key := "samlp"; at_val := "urn:oasis:names:tc:SAML:2.0:protocol" |};
+      {| at_space := "xmlns"; at_key := "saml"; at_val := "urn:oasis:names:tc:SAML:2.0:assertion" |};
+      {| at_space := ""; at_key := "ID"; at_val := "_1" |};
+      {| at_space := ""; at_key := "InResponseTo"; at_val := a |};
+      {| at_space := ""; at_key := "Version"; at_val := "2.0" |} ]
+    [ Elem "saml" "Issuer" [] [Text t] ].
+Theorem decoded_values_keep_carriage_returns_example :
+  read_tree crs_doc = Ok (crs_tree crs_attr_value crs_text_value) /\
+  (match unmarshal_response (crs_tree crs_attr_value crs_text_value) with Ok r => Some (r_in_response_to r, r_issuer r) | Err _ => None end)
+    = Some (crs_attr_value, Some crs_text_value) /\
+  (match predecode_bytes crs_doc with Ok b => Some (br_in_response_to b, br_issuer b) | Err _ => None end)
+    = Some (crs_attr_value, Some crs_text_value) /\
+  read_tree (c14n_write (crs_tree crs_attr_value crs_text_value)) = Ok (crs_tree crs_attr_value crs_text_value) /\
+  (match unmarshal_response_original (crs_tree crs_attr_value crs_text_value) with Ok r => Some (r_in_response_to r, r_issuer r) | Err _ => None end)
+    = Some (("_q" ++ lf1 ++ tab1 ++ lf1 ++ "x")%string, Some ("idp" ++ lf1 ++ "a" ++ tab1 ++ lf1)%string) /\
+  read_tree (Build.etree_write (crs_tree crs_attr_value crs_text_value))
+    = Ok (crs_tree ("_q" ++ lf1 ++ tab1 ++ lf1 ++ "x")%string ("idp" ++ lf1 ++ "a" ++ tab1 ++ lf1)%string).
 Proof. repeat split; vm_compute; reflexivity. Qed.
 
 (* ================================================================ the translated pre-decoders over the tokenizer model
